@@ -24,8 +24,11 @@ theorem updateLoop_hit (now : Int) (spec document nowV : Val) (multi : Bool) (ke
     (ha : applyUpdate spec document nowV false cur = .ok new) :
     updateLoop now spec document nowV multi ((key, v0) :: rest) c m u =
       if (if c.isOD key then pyEqOrdered new cur else pyEq new cur) then
-        (if multi then updateLoop now spec document nowV multi rest (c.setDoc key new) (m + 1) u
-         else (c.setDoc key new, .ok (m + 1, u)))
+        (match ensureUniques now (c.setDoc key new) new with
+        | .error e => (c, .error e)
+        | .ok c2 =>
+          if multi then updateLoop now spec document nowV multi rest c2 (m + 1) u
+          else (c2, .ok (m + 1, u)))
       else if !(pyEqOpt (idOf cur) (idOf new)) then (c, .error .writeErr)
       else match ensureUniques now (c.setDoc key new) new with
         | .error e => (c, .error e)
@@ -74,12 +77,19 @@ theorem loop_first (now : Int) (spec document nowV : Val) :
         rw [updateLoop_hit now spec document nowV false key v rest c m u v new hl' hb' ha]
         by_cases hc : (if c.isOD key then pyEqOrdered new v else pyEq new v) = true
         · rw [if_pos hc]
-          right
-          refine ⟨new, u, by simp, ?_, rfl⟩
-          left
-          split at hc
-          · exact pyEqOrdered_pyEq _ _ hc
-          · exact hc
+          -- the unique indexes are checked on the "unchanged" branch as well
+          cases hu : ensureUniques now (c.setDoc key new) new with
+          | error e => left; exact ⟨e, rfl⟩
+          | ok c2 =>
+            have h2 : c2 = c.setDoc key new :=
+              ensure_nil now _ c2 new (by rw [setDoc_ttl]; exact hn) hu
+            subst h2
+            right
+            refine ⟨new, u, by simp, ?_, rfl⟩
+            left
+            split at hc
+            · exact pyEqOrdered_pyEq _ _ hc
+            · exact hc
         · rw [if_neg hc]
           by_cases hq : pyEqOpt (idOf v) (idOf new) = true
           · simp only [hq, Bool.not_true, Bool.false_eq_true, if_false]
